@@ -33,6 +33,8 @@ CHECKS = {
          "deterministic simulation: history-vs-fresh differential under adversarial deterministic pool reuse"),
  "C16": ("exploration", "Bounded liveness by quiescence: a strict ping-pong between a simulated client that only sees flushed bytes and a scripted handler; any withheld byte is a deadlock the scheduler detects exactly (no timeout), over sampled adapter pairings, round counts, sizes and schedules.",
          "deterministic simulation: strict ping-pong on a flush-visibility transport with deadlock (quiescence) detection"),
+ "C17": ("exploration", "Configurations are generated by construction with known ground truth (valid, or one of 17 single-edit invalid classes); invalid ones must be refused; accepted ones are probed inside the simulated world: every binding through the URL the reference encoder builds, selector exactness through a Ping/PingAll prefix pair, per-service options against defaults through the protocol and codec the backend receives. The accept/reject half is a pure predicate.",
+         "deterministic simulation used as closed-world harness: ground truth by construction plus probing of accepted configurations"),
  "C18": ("exploration", "Twelve rejection classes and every exit path of ServeHTTP (reached by fault schedules) are checked on the event history: dispatch count, handler context cancelled at the return event, no body/writer call after it.",
          "deterministic simulation with fault injection: event-history oracle over global sequence numbers"),
  "C19": ("exploration", "GET decision model: inbound (405 + Allow + no dispatch for methods with side effects; GET == POST metamorphism) and outbound to a Connect backend (GET only under all four preconditions), with every issued GET re-run at URL limits of exactly its length and +-1, +-2. Closed-world reference model; schedules and faults play no role.",
